@@ -72,4 +72,6 @@ def run(ctx):
 
 
 def replay(ctx, payload):
+    if payload["case"].get("kind") != "exposure":
+        return _modes.replay(ctx, payload)
     return P.replay_case(ctx, payload)
